@@ -188,13 +188,29 @@ H.append({
     ],
 })
 
+# ---------------------------------------------------------------- end to end (extension paths)
+H.append({
+    "name": "h_e2e", "src": "h_e2e.c", "env": ENV + ["ext_seam"], "tus": ["verification_rule", "signature", "hashchain", "hash", "publicationsfile", "types", "tlv", "tlv_element", "fast_tlv"],
+    "extra_src": ["x_net_real.c"], "global_defines": ["SB_INALG={0,0,0}", "SB_SIBALG={{0,0,0},{0,0,0},{0,0,0}}"],
+    "unwind": 8, "unwindset": ["KSI_TLV_free:3"], "timeout": 600, "mem_gb": 8, "object_bits": 12,
+    "restrict_fp": ["KSI_List_free.function_pointer_call.1/KSI_HashChainLink_free"], "cbmc_flags": ["--slice-formula"],
+    "functions": ["Rule_verify", "calendarHashChainRule_cal", "userProvidedPublicationBasedRules", "publicationRecordRule_pubFile", "receiveCalendarHashChain",
+                  "KSI_VerificationRule_UserProvidedPublicationExtendToPublication", "KSI_VerificationRule_UserProvidedPublicationHashMatchesExtendedResponse",
+                  "KSI_VerificationRule_UserProvidedPublicationTimeMatchesExtendedResponse", "KSI_VerificationRule_UserProvidedPublicationExtendedSignatureInputHash",
+                  "KSI_VerificationRule_PublicationsFileExtendToPublication", "KSI_VerificationRule_ExtendSignatureCalendarChainInputHashToHead"],
+    "bound": "signature without calendar chain (one aggregation chain of one link), extender reply with status, request id and a chain of one link (direction concrete), user publication complete / publications file of one record; exchange outcome concrete per instance (success / network error / out of memory / extender status 0x101 / other request id); all times, imprints, the request id and the permission flag symbolic; premise: the aggregation chain aggregates (level in range)",
+    "instances": [inst("cal_head", GROUP=0, C04_EXT_DIRS=0), inst("user_l", GROUP=1, C04_EXT_DIRS=1), inst("user_r", GROUP=1, C04_EXT_DIRS=0), inst("pubfile_l", GROUP=2, C04_EXT_DIRS=1),
+                  inst("user_neterr", GROUP=1, EXCH=1), inst("pubfile_oom", GROUP=2, EXCH=2), inst("cal_status", GROUP=0, EXCH=3), inst("user_reqid", GROUP=1, EXCH=4)],
+})
+
 # ---------------------------------------------------------------- deprecated-algorithm rules
 H.append({
-    "name": "h_depr", "src": "h_depr.c", "env": ENV, "tus": RULE_TUS,
+    "name": "h_depr", "src": "h_depr.c", "env": ENV + ["ext_seam"], "tus": RULE_TUS,
     "unwind": 6, "timeout": 300, "mem_gb": 8, "object_bits": 12,
     "functions": ["KSI_VerificationRule_CalendarHashChainHashAlgorithmDeprecatedAtPubTime", "KSI_VerificationRule_PublicationsFileSignatureCalendarChainHashAlgorithmDeprecatedAtPubTime",
                   "KSI_VerificationRule_UserProvidedPublicationSignatureCalendarChainHashAlgorithmDeprecatedAtPubTime",
                   "KSI_VerificationRule_UserProvidedPublicationExtendedCalendarChainHashAlgorithmDeprecatedAtPubTime",
+                  "KSI_VerificationRule_PublicationsFileExtendedCalendarChainHashAlgorithmDeprecatedAtPubTime",
                   "signatureCalendarChainHashAlgorithmDeprecatedAtPubTime", "calendarChainAggrAlgorithmState", "wasDeprecatedAt", "getNextLink"],
     "bound": "calendar chains of 1..3 links with concrete direction patterns and sibling algorithms SHA-1 / SHA2-256; publication time (64 bit) symbolic; the algorithm status function of hash.c is used as given",
     "instances": [
@@ -207,14 +223,47 @@ H.append({
         inst("ext_rl_sha1_256", ON_EXT=1, C04_USERPUB=1, C04_EXT_NLINKS=2, C04_EXT_DIRS=2, C04_EXT_SIBALG="{0,1,0,0}", HAS_SHA1_LEFT=0),
         inst("ext_lr_256_sha1_l_sha1", ON_EXT=1, C04_USERPUB=1, C04_EXT_NLINKS=3, C04_EXT_DIRS=5, C04_EXT_SIBALG="{1,0,0,0}", HAS_SHA1_LEFT=1),
         inst("ext_unbuffered", ON_EXT=1, C04_USERPUB=1, BUFFERED=0, HAS_SHA1_LEFT=0),
+        inst("extpf_l_sha1", ON_EXT=2, C04_NPUB=1, C04_EXT_NLINKS=1, C04_EXT_DIRS=1, C04_EXT_SIBALG="{0,0,0,0}", HAS_SHA1_LEFT=1),
+        inst("extpf_rl_sha1_256", ON_EXT=2, C04_NPUB=1, C04_EXT_NLINKS=2, C04_EXT_DIRS=2, C04_EXT_SIBALG="{0,1,0,0}", HAS_SHA1_LEFT=0),
     ],
 })
 
+OUTSIDE = ("OpenSSL (X.509 parsing and path building, RSA / PKCS#1 / PKCS#7, digest selection by OID): certificate validity times and the raw-signature "
+           "verdict are oracles (env/pki_model.c); the HTTP/TCP transports, PDU framing and the HMAC of extender replies and the download + PKI verification "
+           "of the publications file: replaced by a seam handing the rule code a status per step and typed reply objects (env/ext_seam.c); the hash "
+           "function (model returns symbolic digests; equalities of roots are facts about the returned digests); bytes -> typed objects (C10); shapes "
+           "beyond the bounds: calendar chains of more than 2 (thorough 3) links, publications files of more than 2 (3) publication records or 2 certificate "
+           "records, more than one aggregation chain of one link; fallback-policy chaining and tempData life cycle of KSI_SignatureVerifier_verify (C05)")
+ASSUMPTIONS = [
+    "typed objects built by the harnesses satisfy the constructors' / parsers' postconditions (sig_builder.h, c04_builder.h: mandatory template fields present, imprint length = 1 + digest length of its algorithm, calendar chains have at least one link, a signature has a publication record or an authentication record only together with a calendar chain and never both)",
+    "hash model U: digests are unconstrained symbolic bytes",
+    "PKI model: KSI_PKITruststore_verifyRawSignature returns an arbitrary status; certificate validity getters return the certificate's two arbitrary 64-bit times",
+    "transport seam: every step returns an arbitrary status; the transport assigns the request id (as net_http.c / net_tcp.c do); the reply is an arbitrary typed KSI_ExtendResp inside the shape bound",
+    "H-b: each leaf rule behaves as its stub (function of the fact vector) - established per rule, inside the bounds, by the h_* harnesses",
+]
+LEVEL_TEXT = ("Decomposition policy verdict = real rule tables over leaf rules. (1) H-b: the unmodified tables calendarBasedRules, keyBasedRules, publicationsFileBasedRules, "
+              "userProvidedPublicationBasedRules, generalRules (with internalRules below them) and the real Rule_verify / Policy_verifySignature of policy.c are executed "
+              "over a symbolic fact vector (5 presence facts, 21 internal conditions, ~45 anchor facts incl. 4-valued extender outcomes, and a cannot-compute flag with "
+              "arbitrary status for each of 30 anchor rules); for ALL fact vectors the solver shows: OK => internal verification holds AND the calendar root is bound to the "
+              "policy's anchor; FAIL => documented PUB/CAL/KEY (or internal) code of a contradiction that really holds; error status => failed fetch or uncomputable rule; "
+              "no extension request without permission; and with no flag set the verdict lies in the set given by an independent decision procedure per policy "
+              "(missing anchor / forbidden / unavailable / failed extension => NA or error status, never OK or FAIL; general = user publication if supplied, else "
+              "publications file, then key-based). (2) Every one of the 41 non-internal leaf rules of these tables is executed from verification_rule.c on typed signatures and "
+              "anchors of enumerated shape with all values symbolic and compared with a reference predicate written from its documentation: user-publication time / hash / "
+              "creation-time rules; publications-file lookups through the real publicationsfile.c; the four fetching rules through receiveCalendarHashChain with a transport "
+              "seam (request start / end time, every step's status, extender status, request-id match, exactly the reply's chain buffered, no stale chain); the CAL-01..04 "
+              "and PUB-01..03 comparisons on the buffered chain; certificate lookup by id, KEY-03 window (inclusive bounds) and KEY-02 (oracle asked once, over exactly the "
+              "serialized published-data bytes, with the record's certificate); the deprecated-algorithm and presence probes.")
+LEVEL_NOTE = ("bounded shapes (see outside_bounds) with symbolic values; cryptography, transports and HMAC are oracles / seams; the policy-level statement follows from (1) and (2) "
+              "only through the stub-to-rule correspondence written down in hb_anchor.c; four rule-level peculiarities that do not affect the property are asserted in weakened form "
+              "and described in FINDINGS.md (O1-O5); finding F1 (publications-file PUB-02 rule ignored the aggregation time) was reproduced, fixed in /repo (fdc15f8) and is now proved absent; "
+              "CBMC C semantics; 37 seeded mutations of policy.c / verification_rule.c / publicationsfile.c are all caught (MUTATIONS.md)")
+
 PLAN = {
     "property": "C04",
-    "outside": "TODO",
-    "assumptions": [],
-    "manifest": {"claimed": True, "level_text": "TODO", "level_note": "TODO"},
+    "outside": OUTSIDE,
+    "assumptions": ASSUMPTIONS,
+    "manifest": {"claimed": True, "level_text": LEVEL_TEXT, "level_note": LEVEL_NOTE},
     "harnesses": H,
 }
 json.dump(PLAN, open(os.path.join(HERE, "plan.json"), "w"), indent=1)
